@@ -424,6 +424,7 @@ func (ex *Exec) enterLoop(fr *Frame, lp *loopRec, reach string, st *State) (stri
 		}
 		hst.heap[c] = ex.sc.define("hvp", srt, t)
 	}
+	ex.envlogFrame(st, hst)
 	// values reachable after havoc are still well-formed: re-assume ranges of
 	// scalar leaves on load (done in load); map iteration exhaustion facts
 	// must not be used when the loop modifies the map's domain
